@@ -2,6 +2,8 @@
    Statements only. *)
 From Coq Require Import List NArith Arith.
 From SonicV Require Import Model.ObjEq Model.SerRoundTrip.
+From Coq Require Import Permutation.
+From SonicV Require Model.ObjEqMore.
 Import ListNotations.
 Local Close Scope N_scope.
 Local Open Scope nat_scope.
@@ -30,4 +32,17 @@ Theorem text_route_is_lossless : forall (scalar key : Type) print_scalar parse_s
 Proof.
   intros scalar key ps pas pk pak H1 H2 H3 H4 v.
   exact (parse_print scalar key ps pas pk pak H1 H2 H3 H4 v).
+Qed.
+
+(* ... it is reflexive, and for objects without duplicate names insensitive to the order of the members of
+   either operand *)
+Theorem object_equality_reflexive : forall (key val : Type) (keq : forall a b : key, {a = b} + {a <> b}) (veq : val -> val -> bool),
+  (forall a, veq a a = true) -> forall a, obj_eq key val keq veq a a = true.
+Proof. exact ObjEqMore.obj_eq_refl. Qed.
+Theorem object_equality_ignores_member_order : forall (key val : Type) (keq : forall a b : key, {a = b} + {a <> b}) (veq : val -> val -> bool) a a' b b',
+  Permutation a a' -> NoDup (map fst a) -> Permutation b b' -> NoDup (map fst b) ->
+  obj_eq key val keq veq a b = obj_eq key val keq veq a' b'.
+Proof.
+  intros key val keq veq a a' b b' Pa Na Pb Nb.
+  rewrite (ObjEqMore.obj_eq_perm_l key val keq veq a a' b Pa Na). exact (ObjEqMore.obj_eq_perm_r key val keq veq a' b b' Pb Nb).
 Qed.
